@@ -80,6 +80,15 @@ example :
     st.reports.map (fun r => (r.id, r.pos, r.snap.map fun x => (x.split, x.cur))) =
       [(1, 3, [(0, 2), (1, 6)]), (2, 6, [(0, 2), (1, 8)])] := by decide
 
+/-- **A read is emitted atomically.** One `ReadEvents` of the loop — however many records it returns — appends exactly
+its records to the output stream and takes no checkpoint report: no barrier can fall between the first and the last
+record of a read, whose positions the reader has already passed (so a checkpoint requested while a read is being
+emitted is cut after the whole read; `cursor_matches_cut` then gives its reported positions). -/
+theorem read_is_atomic (st : RSt) (batch : List Nat) :
+    ∃ recs, (rstep st (.read batch)).out = st.out ++ recs ∧ (∀ e ∈ recs, ∀ n, e ≠ Ev.barrier n) ∧
+      (rstep st (.read batch)).reports = st.reports :=
+  read_atomic batch st
+
 /-- `uniformlyAssignShard` always names an existing runner -/
 theorem uidx_lt (lo hi n : Nat) (hn : 0 < n) : uidx lo hi n < n := by
   unfold uidx; omega
